@@ -205,7 +205,7 @@ func runAddr(ac addrCase) (fails []string, infra string, observedAcross int) {
 	var cli *gnet.Client
 	var cliTarget net.Listener
 	if ac.ClientChurn > 0 {
-		tnet, taddr := "tcp4", "127.0.0.1:0"
+		tnet, taddr := "tcp4", fx.Host("tcp4")+":0"
 		if ac.Kind == "tcp6-linklocal" {
 			tnet, taddr = "tcp6", "["+linkLocal+"]:0"
 		} else if strings.HasPrefix(ac.Kind, "tcp6") {
